@@ -141,12 +141,15 @@ def arith_cases(r, quick, scale):
             runs.append({"mode": "input", "la": r.choice(ra)})
             if op != "plus" or a >= 0:
                 runs.append({"mode": "lit", "la": "lit"})
+                runs.append({"mode": "litz", "la": "lit"})
         else:
             rb = rep_choices(b)
             c["b"] = str(b)
             runs = [{"mode": "var", "la": x, "lb": y} for x, y in pick([(x, y) for x in ra for y in rb])]
             runs.append({"mode": "input", "la": r.choice(ra), "lb": r.choice(rb)})
             runs.append({"mode": "lit", "la": "lit", "lb": "lit"})
+            if len(cases) % 3 == 0:     # the same literals spelled with leading zeros (seeded C10_10)
+                runs.append({"mode": "litz", "la": "lit", "lb": "lit"})
             if op == "add":
                 runs.append({"mode": "addfn", "la": r.choice(ra), "lb": r.choice(rb)})
         c["runs"] = runs
@@ -472,7 +475,13 @@ def check_literals(rep, work, vh, gojq, seed, quick):
         raise vc.ToolError("NumLitGen failed:\n" + vc.tlc_error_text(res))
     rep.add_tlc(res)
     lits = vc.read_ndjson(gout)
-    text_counters = check_texts(rep, work, vh, vc.read_ndjson(gout2), quick)
+    tcases = vc.read_ndjson(gout2)
+    rz = random.Random(seed + 77)
+    for k in range(60 if quick else 600):     # integer texts beyond int64 with leading zeros (tonumber must read them in base ten)
+        digits = "".join(rz.choice("0123456789" if k % 2 else "01234567") for _ in range(rz.randint(19, 40)))
+        t = rz.choice(["", "-"]) + "0" * rz.randint(1, 3) + digits
+        tcases.append({"id": len(tcases) + 1, "t": cps(t)})
+    text_counters = check_texts(rep, work, vh, tcases, quick)
     texts = ["".join(chr(c) for c in l["lit"]) for l in lits]
     rep.cov["literals_generated_by_tlc"] = len(texts)
     r = random.Random(seed)
